@@ -1,6 +1,8 @@
 package main
 
 import (
+	"github.com/buildkite/go-pipeline/warning"
+	pipeline "github.com/buildkite/go-pipeline"
 	"encoding/json"
 	"fmt"
 	"reflect"
@@ -542,6 +544,24 @@ func init() {
 				}
 				stat("C07", "merge-equals-source")
 			}
+		}
+		// explicit keys beat merged keys, observed at Parse: a step that merges a base carrying `command` and writes
+		// its own `commands` runs its own commands - also when that list is empty or null
+		for _, own := range []struct{ text, want string }{{"[]", ""}, {"~", ""}, {"[own]", "own"}, {"[a, b]", "a\nb"}, {"\"\"", ""}} {
+			text := fmt.Sprintf("base: &b {command: inherited, label: L}\nsteps:\n- <<: *b\n  commands: %s\n- <<: *b\n", own.text)
+			noteCase("C07", text)
+			p, err := pipeline.Parse(strings.NewReader(text))
+			if err != nil && !warning.Is(err) || len(p.Steps) != 2 {
+				oracleFail("C07", "acyclic-rejected", sx.A(text), fmt.Sprintf("Parse: %v", err))
+				continue
+			}
+			s0, ok0 := p.Steps[0].(*pipeline.CommandStep)
+			s1, ok1 := p.Steps[1].(*pipeline.CommandStep)
+			if !ok0 || !ok1 || s0.Command != own.want || s1.Command != "inherited" || s0.Label != "L" {
+				oracleFail("C07", "explicit-key-loses-to-merged", sx.A(text), fmt.Sprintf("step 0 (own commands %s over a merged command) runs %q, want %q; step 1 (merge only) runs %q", own.text, s0.Command, own.want, s1.Command))
+				continue
+			}
+			stat("C07", "explicit-beats-merged-at-parse")
 		}
 		// bounded time: merge graphs with very many distinct paths to the same mapping (a ladder in which every
 		// rung merges both mappings of the rung below, and a dense cycle in which every mapping merges all the
